@@ -58,20 +58,30 @@ func c14BuildSubsets(tier string) core.Source {
 	type cs struct {
 		mask int
 		long int
+		base string // "r" (recursive), "d" (--dirs without recursion) or "" (neither)
 	}
 	var cases []cs
+	// without -r: -d lists the requested directory's immediate entries, neither option skips directories
+	for mask := 0; mask < 1<<len(letters); mask++ {
+		if mask%8 == 5 || mask == 0 || tier == "thorough" {
+			for _, long := range []int{0, 8, 16, 24} { // nothing, --delete, --exclude=x, both
+				cases = append(cases, cs{mask, long, "d"})
+			}
+			cases = append(cases, cs{mask, 0, ""})
+		}
+	}
 	for mask := 0; mask < 1<<len(letters); mask++ {
 		if tier == "thorough" {
 			for long := 0; long < 1<<len(c14Long); long++ {
-				cases = append(cases, cs{mask, long})
+				cases = append(cases, cs{mask, long, "r"})
 			}
 		} else {
 			// quick: every letter subset alone, and each long option / pair of long options with every 8th subset
-			cases = append(cases, cs{mask, 0})
+			cases = append(cases, cs{mask, 0, "r"})
 			if mask%8 == 5 {
 				for long := 1; long < 1<<len(c14Long); long++ {
 					if bits(long) <= 2 {
-						cases = append(cases, cs{mask, long})
+						cases = append(cases, cs{mask, long, "r"})
 					}
 				}
 			}
@@ -79,7 +89,7 @@ func c14BuildSubsets(tier string) core.Source {
 	}
 	return core.FuncSource{N: len(cases), F: func(i int) core.Result {
 		c := cases[i]
-		args := subsetArgs(letters, c.mask, "r")
+		args := subsetArgs(letters, c.mask, c.base)
 		for b, l := range c14Long {
 			if c.long&(1<<b) != 0 {
 				args = append(args, l)
@@ -143,7 +153,7 @@ func init() {
 	core.Register(&core.Prop{
 		ID:    "C14",
 		Level: "model_checking",
-		Rule: "every subset of the single-letter options {-l,-p,-t,-g,-o,-D,-c,-I,-n} with -r (512), combined with the long spellings {--devices,--specials,--no-D,--delete,--exclude=x} (quick: singles and pairs on every 8th subset; thorough: all 16 384 combinations), each run as 5 real sessions (daemon pull/push, local, library pull/push) on a tree containing every entry type (so that each option changes the wire format) against a destination with stale, extraneous and exclude-protected entries. " +
+		Rule: "every subset of the single-letter options {-l,-p,-t,-g,-o,-D,-c,-I,-n} with -r (512; also with -d instead of -r and with neither on every 8th subset, with and without --delete / --exclude=x), combined with the long spellings {--devices,--specials,--no-D,--delete,--exclude=x} (quick: singles and pairs on every 8th subset; thorough: all 16 384 combinations), each run as 5 real sessions (daemon pull/push, local, library pull/push) on a tree containing every entry type (so that each option changes the wire format) against a destination with stale, extraneous and exclude-protected entries. " +
 			"oracle: no session fails (no desynchronisation) and the 5 resulting destinations are equal on the defined fields (entry set, types, bytes, link targets, rdev, perms under -p, regular-file mtime under -t, owner/group under -o/-g) — a differential oracle with no hand-written expectation. states = destination entries compared, transitions = sessions",
 		Assum: []string{"runs as root on tmpfs; directory/symlink mtimes and new-file permissions without -p are undefined and not compared"},
 		Parts: func(tier string) []core.Part {
